@@ -8,7 +8,7 @@
         helper) and looked up by equality / membership / subscript.
 
 For the walk family the set of strings that can be looked up must contain all ancestors-or-self.  This is decided by unrolling
-the inline view of the lookup abstractly on the names `aa`, `aa.bb`, `aa.bb.cc`: strings derived from the parameter are
+the inline view of the lookup abstractly on the names `aa`, `aa.bb`, `aa.bb.cc`, `aa.bb.cc.dd`: strings derived from the parameter are
 computed concretely, everything read from the mapping _isu(object)NOWN (a condition on it forks the unrolling), loops are
 bounded.  The union over all paths of the strings compared with / looked up in UNKNOWN data is the set of names the lookup can
 ever test; an ancestor missing from it is never tested, so descendants of a module listed under that name get no layer.
@@ -1153,7 +1153,7 @@ def _load(t: ast.expr) -> ast.expr:
     return t
 
 
-NAMES = ("aa", "aa.bb", "aa.bb.cc")
+NAMES = ("aa", "aa.bb", "aa.bb.cc", "aa.bb.cc.dd")
 
 
 def ancestors_or_self(name: str) -> set[str]:
@@ -1200,4 +1200,4 @@ def check_walk(repo: Repo, view: FuncInfo) -> tuple[str, str]:
     if missing_all:
         ex = "; ".join(f"for `{n}` the name(s) {', '.join(repr(m) for m in ms)} are never looked up" for n, ms in missing_all.items())
         return "violated", f"the walk over the ancestors of the module name does not test every ancestor-or-self: {ex}. Descendants of a module listed under such a name (e.g. a top-level package) resolve to no layer"
-    return "ok", "unrolled on names with 1, 2 and 3 components: every ancestor of the name and the name itself is looked up"
+    return "ok", "unrolled on names with 1 to 4 components: every ancestor of the name and the name itself is looked up"
